@@ -15,7 +15,7 @@
    "answers something other than true" includes non-termination of the real validator on
    cyclic damage (the model's OutOfFuel); the property restricts chain damage to acyclic
    chains.
-   OBLIGATIONS: C14_check_sound C14_damage_rejected_by_check C14_damage_rejected_by_detailed C14_detailed_sound C14_validate_is_detailed C14_try_ops_refuse_on_heap C14_try_ops_refuse_unchanged C14_chain_damage_rejected C14_chain_exact C14_nonvacuous C14_legacy_refuted C14_check_total C14_damage_gives_false C14_damage_refused_unchanged C14_detailed_total C14_chain_damage_refused C14_orphan_rejected C14_damage_operators_rejected C14_any_leaf_damage_rejected C14_orphan_operators_rejected C14_damage_operators_nonvacuous *)
+   OBLIGATIONS: C14_check_sound C14_damage_rejected_by_check C14_damage_rejected_by_detailed C14_detailed_sound C14_validate_is_detailed C14_try_ops_refuse_on_heap C14_try_ops_refuse_unchanged C14_chain_damage_rejected C14_chain_exact C14_nonvacuous C14_legacy_refuted C14_check_total C14_damage_gives_false C14_damage_refused_unchanged C14_detailed_total C14_chain_damage_refused C14_orphan_rejected C14_damage_operators_rejected C14_any_leaf_damage_rejected C14_orphan_operators_rejected C14_damage_operators_nonvacuous C14_all_damage_operators_rejected C14_overfull_but_otherwise_valid_branch_rejected C14_damage_operators2_nonvacuous *)
 From BPT Require Import Common.Base Common.AMap Rust.Arena Rust.Tree Rust.Heap Rust.Readers Rust.Run
      Rust.InvDefs Rust.ValidDefs Rust.Damage Rust.ValidSound Rust.ChainExact.
 From Coq Require Import Permutation.
@@ -86,7 +86,7 @@ Definition C14_nonvacuous :=
 
 From BPT Require Import Legacy.RustLegacy.
 From BPT Require Extra.RustExtra2.
-From BPT Require Import Rust.InvDefs Rust.Repr Extra.DamageOps.
+From BPT Require Import Rust.InvDefs Rust.Repr Extra.DamageOps Extra.DamageOps2.
 From BPT Require Extra.RustExtra.
 (* the validators as pinned accepted an empty non-root node (repaired in /repo) *)
 Definition C14_legacy_refuted := (d10_refuted, validator_empty_node_refuted).
@@ -172,3 +172,32 @@ End DamageOperators.
 (* non-vacuity: a reachable state (20 inserts at capacity 4) and 23 concrete edits, one or more
    per case of [damaging] *)
 Definition C14_damage_operators_nonvacuous := (DamageOpsExamples.ex_b_valid, DamageOpsExamples.ex_theorem_applies).
+
+(* The two cases the 19 above left out (Extra/DamageOps2.v), so that [damaging2] covers every
+   documented kind through an operator-level theorem: a branch ABOVE CAPACITY that is otherwise
+   entirely valid (EBranchPushLeaf appends whole, valid, chained leaves: nothing but the key count
+   of the branch is wrong), and a separator rewritten so that the branch stays sorted and within
+   capacity but a key somewhere below - at any depth - falls outside the new interval. *)
+Section DamageOperators2.
+Variable V : Type.
+
+Theorem C14_all_damage_operators_rejected : forall (b : bstate V) (e : edit V) k v z,
+  Inv b -> rooms b -> damaging2 b e ->
+  let h' := apply_edit (flatten b) e in
+  check_invariants h' = Ok false /\ check_invariants_detailed h' = Ok (Some E_TREE) /\
+  validate_for_operation h' = Ok (Some E_TREE) /\
+  hstep h' (OTryInsert k v) = Some (UResOpt None (Some (DataIntegrity E_TREE))) /\
+  hstep h' (@OTryRemove V z) = Some (URes None (Some (DataIntegrity E_TREE))).
+Proof. exact (@DamageOps2.damage_operators_refused2 V). Qed.
+
+Theorem C14_overfull_but_otherwise_valid_branch_rejected : forall (b : bstate V) p bid x ks vs,
+  Inv b -> rooms b -> branch_at (flatten b) p = Some bid -> get_branch (flatten b) bid = Some x ->
+  (exists lid, last_opt (bkids x) = Some (RLeaf lid)) -> ks <> [] ->
+  cap b <= length (bkeys x) ->
+  rejected (apply_edit (flatten b) (EBranchPushLeaf p ks vs)).
+Proof. exact (@DamageOps2.edit_EBranchPushLeaf_rejected_full V). Qed.
+
+End DamageOperators2.
+
+Definition C14_damage_operators2_nonvacuous :=
+  (DamageOps2Examples.ex17_theorem_applies, DamageOps2Examples.ex17_computed, DamageOps2Examples.ex_computed2).
